@@ -14,7 +14,7 @@ func init() {
 		Level: "exploration",
 		Rule: "compaction-dense generated programs with key locality (writes cluster in a moving window of the key space, so flushed files cover different ranges and several L1 files arise), " +
 			"tiny memtables (1 byte .. 4KB: one table per few writes), MaxMemTables 1..4 (selects the L0->L1 / promotion / size-ratio branches), range compactions, deletes made through plain " +
-			"calls, batches and transactions (tracked and untracked delete markers), restarts and offline log retirement. Two oracles: (1) file level - around every triggered/range compaction the " +
+			"calls, batches and transactions (tracked and untracked delete markers), restarts, offline log retirement and online retention (WAL.ManageRetention on the running engine after flushing everything). Two oracles: (1) file level - around every triggered/range compaction the " +
 			"newest-wins merged view of ALL table files (read through sstable.Reader; recency from the documented file naming) must be unchanged, a delete marker may vanish only if no older version " +
 			"remains in any file, every file strictly ascending; (2) engine level - every read is compared with the map model, also after reopening on the compacted files with the log retired. " +
 			"distinct = hash(config, op kinds); non-trivial = >= 1 compaction actually changed the set of table files and >= 1 reopen/retire followed",
@@ -42,7 +42,7 @@ func runC12(c *core.Ctx, res *core.Result) {
 		nops = r.Range(40, 260)
 	}
 	o := kv.GenOpts{NOps: nops, NKeys: r.Range(6, 40), Maintenance: r.Range(18, 40),
-		CompactRange: r.Chance(35), Retire: true, Reopen: true, Tx: true, Batch: true}
+		CompactRange: r.Chance(35), Retire: true, Reopen: true, Tx: true, Batch: true, OnlineRetire: r.Chance(40)}
 	ks := kv.GenKeySpace(r, o.NKeys)
 	ks.Locality = r.Chance(75)
 	prog := kv.GenProgram(r, ks, fmt.Sprintf("c%d", c.Idx), o)
